@@ -1,4 +1,4 @@
-import OjgVerif.Sen.Lemmas
+import OjgVerif.Sen.LemmasReset
 import OjgVerif.Gen.SenFacts
 /-! # C07 (SEN clause) — a reused sen.Parser behaves like a fresh one (model level)
 
@@ -16,10 +16,17 @@ entry points perform.
   is FALSE: with `plus` left set by a failed call, `[x "a"]` parses to `["xa"]`. This is the known
   finding C07sen-plus-not-reset (a proposed fix resets the flag).
 
-That the remaining kept fields (`ri`, `rn`, `num`, `quoteDelim`) are dead on entry — written before
-they are read — is NOT yet a theorem; it is decided by the correspondence run: random call histories on
-one sen.Parser, each call compared with a fresh parser and with the model started from the state the
-model says the previous call left (`plus`, `lastStrKey` carried, everything else fresh). -/
+* `scratch_is_dead` (parser profile, every table set that passes `TablesOK`, so the regenerated one):
+  the kept fields `ri`, `rn`, `num`, `quoteDelim`, `exkey` are dead on entry — every branch of the
+  machine writes them before it reads them — so the outcome of a call (documents, error kind and
+  position, every chunking) depends on the previous state only through `plus`, `lastKey`, `lastStrKey`;
+* `reused_like_fresh_partial`: a sen.Parser on which no `+` is pending and whose `lastKey`/`lastStrKey`
+  are empty behaves exactly like a fresh one, whatever else the previous calls left behind.
+
+NOT a theorem: that a non-empty `lastKey`/`lastStrKey` is harmless while `plus` is clear (they are only
+read after a `+` of the same call has copied the key of the member just stored); this is decided by the
+correspondence run: random call histories on one sen.Parser, each call compared with a fresh parser and
+with the model started from the `plus`/`lastStrKey`/`lastKey` the model says the previous call left. -/
 namespace OjgVerif.C07sen
 open OjgVerif OjgVerif.Sen
 
@@ -79,5 +86,36 @@ reachable history: `Parse(["a" +)` then `Parse([x "a"])`) -/
 theorem plus_survives_failed_call :
     (match run refTables {} [[91, 34, 97, 34, 32, 43]] with | .ok _ => false | .error e => e.plus) = true := by
   decide +kernel
+
+/-! ## the scratch fields are dead on entry -/
+
+/-- **Non-interference** (sen.Parser profile): two instances that agree on `plus`, `lastKey` and
+`lastStrKey` give the same outcome for the same call — whatever `ri`, `rn`, the number accumulator,
+`quoteDelim` and `exkey` the previous calls left — for every configuration, input and chunking, over every
+table set that passes `TablesOK`. -/
+theorem scratch_is_dead {T : Tables} (hT : TablesOK T) (cfg : Cfg) (hc : cfg.tokenizer = false) (prev prev' : St)
+    (h1 : prev.plus = prev'.plus) (h2 : prev.lastKey = prev'.lastKey) (h3 : prev.lastStrKey = prev'.lastStrKey)
+    (chunks : List Bytes) : call T cfg prev chunks = call T cfg prev' chunks := by
+  rw [call_eq_ref hT, call_eq_ref hT]
+  exact call_congr_ref cfg hc prev prev' h1 h2 h3 chunks
+
+/-- the same over the regenerated `sen/maps.go` -/
+theorem scratch_is_dead_sen (cfg : Cfg) (hc : cfg.tokenizer = false) (prev prev' : St)
+    (h1 : prev.plus = prev'.plus) (h2 : prev.lastKey = prev'.lastKey) (h3 : prev.lastStrKey = prev'.lastStrKey)
+    (chunks : List Bytes) : call senTables cfg prev chunks = call senTables cfg prev' chunks :=
+  scratch_is_dead senTables_ok cfg hc prev prev' h1 h2 h3 chunks
+
+/-- **C07 (SEN parser), partial form**: a reused sen.Parser with no `+` pending (and empty
+`lastKey`/`lastStrKey`) behaves like a fresh one -/
+theorem reused_like_fresh_partial (cfg : Cfg) (hc : cfg.tokenizer = false) (prev : St)
+    (hp : prev.plus = false) (hk : prev.lastKey = []) (hl : prev.lastStrKey = []) (chunks : List Bytes) :
+    call senTables cfg prev chunks = run senTables cfg chunks :=
+  scratch_is_dead_sen cfg hc prev {} hp hk hl chunks
+
+/-- non-vacuity: an instance left in the middle of a `\\u` escape inside a single-quoted string, expecting
+a key, with a half-read number, meets the hypotheses -/
+example : ∃ prev : St, prev.ri = 3 ∧ prev.rn = 55357 ∧ prev.quoteDelim = 39 ∧ prev.exkey = true ∧ prev.num.neg = true ∧
+    prev.plus = false ∧ prev.lastKey = [] ∧ prev.lastStrKey = [] :=
+  ⟨{ ri := 3, rn := 55357, quoteDelim := 39, exkey := true, num := { neg := true }, mode := .u }, rfl, rfl, rfl, rfl, rfl, rfl, rfl, rfl⟩
 
 end OjgVerif.C07sen
